@@ -12,7 +12,7 @@ PROP = {
             "reaching or lying beyond the end, whole lines, random byte pair; always on char boundaries) x LuaFormatConfig; "
             "distinct = FNV of (text, config, selection); non-trivial = a result was produced, spliced and >= 8 code tokens compared",
     "min_nontrivial": {"quick": 6000, "thorough": 150000},
-    "max_secs": {"quick": 60, "thorough": 800},
+    "max_secs": {"quick": 600, "thorough": 1500},
     "require_clauses": ["d:no-result-on-errors", "r:range-valid", "a:covers-selection", "b:splice-preserves", "changed-by-formatting",
                         "target:lines", "target:explicit:table", "target:explicit:call-args", "target:explicit:params",
                         "selection:empty", "selection:inside-token", "selection:one-statement", "selection:whole-file", "selection:beyond-eof", "selection:inside-long-string", "selection:inside-comment"],
